@@ -27,8 +27,12 @@ func (cw *CodeWriter) WriteLeadingComments(comments []string) {
 		cw.advanceMapper(comment)
 	}
 
-	// Clear pendings and move to the next line
+	// Clear pendings and move to the next line (unless the output has not begun: blank
+	// lines in front of the first statement are not reproduced)
 	cw.clearPending()
+	if cw.Builder.Len() == 0 {
+		return
+	}
 	cw.WriteNewline()
 	cw.WriteIndent()
 }
